@@ -95,8 +95,20 @@ func vfArchiveRoundTrip(c *vfCtx, srcRoot, name string, stream []byte, nameJSON 
 		return false
 	}
 	if w != nil {
-		for i, s := range segs {
-			if err := writeAll(w, s); err != nil {
+		// every segment is handed over in one reused scratch buffer that is scribbled on as soon as the write has
+		// returned (what io.Copy and any pump with a scratch buffer do: a writer must not keep the caller's slice)
+		var scratch []byte
+		for i, seg := range segs {
+			if cap(scratch) < len(seg) {
+				scratch = make([]byte, len(seg)*2+64)
+			}
+			s := scratch[:len(seg)]
+			copy(s, seg)
+			err := writeAll(w, s)
+			for k := range s {
+				s[k] = 0xAA
+			}
+			if err != nil {
 				c.Viol("c15-write-error", "%s: write of segment %d/%d failed: %v", tag, i, len(segs), vfClip(err.Error()))
 				w.Close()
 				return false
